@@ -48,6 +48,7 @@ type Contract struct {
 	Lets      []LetDef
 	// call-site assertions: "assert call <callee-substring> : expr"
 	CallAsserts []CallAssert
+	Owns        []string // pointer parameters whose referent only this function (and callees it passes it to) can modify
 	Pow10Max    int      // largest exponent for which pow10 of a symbolic argument is instantiated (default 120)
 	LemmaUses   []*CCall // lemma instances assumed at entry (the lemma is an obligation of the same property)
 }
@@ -93,16 +94,17 @@ type ContractSet struct {
 	Errors  []string
 	specLike bool
 	Defs    map[string]*Def
+	KeeperIfaces map[string]bool // interfaces whose methods touch stores only, never caller-visible memory (assumed)
 	Pure    map[string]bool // trusted side-effect-free dependency functions (result unknown)
 }
 
 func NewContractSet() *ContractSet {
-	return &ContractSet{Funcs: map[string]*Contract{}, Globals: map[string][]*GlobalSpec{}, Pure: map[string]bool{}, Defs: map[string]*Def{}}
+	return &ContractSet{Funcs: map[string]*Contract{}, Globals: map[string][]*GlobalSpec{}, Pure: map[string]bool{}, Defs: map[string]*Def{}, KeeperIfaces: map[string]bool{}}
 }
 
-var keywords = map[string]bool{"func": true, "global": true, "requires": true, "ensures": true, "ensures_assumed": true, "uses": true, "pow10_max": true, "panics_iff": true, "panics_if": true, "panic_typ": true, "on_panic": true, "define": true,
+var keywords = map[string]bool{"func": true, "global": true, "requires": true, "ensures": true, "ensures_assumed": true, "uses": true, "pow10_max": true, "owns": true, "panics_iff": true, "panics_if": true, "panic_typ": true, "on_panic": true, "define": true,
 	"may_panic": true, "modifies": true, "loop": true, "props": true, "trusted": true, "inline": true, "let": true,
-	"lemma": true, "pure": true, "package": true, "var": true, "hyp": true, "concl": true, "assert": true, "end": true}
+	"lemma": true, "pure": true, "package": true, "keeper_iface": true, "var": true, "hyp": true, "concl": true, "assert": true, "end": true}
 
 var funcHdr = regexp.MustCompile(`^func\s+(\([^)]*\)\.)?([A-Za-z0-9_$#\[\],./\-]+)\s*\(([^)]*)\)\s*(.*)$`)
 
@@ -240,6 +242,9 @@ func (cs *ContractSet) ParseContractText(file, pkg, text string, trusted bool) {
 				continue
 			}
 			cs.Defs[strings.TrimSpace(rest[:j])] = &Def{Params: splitNames(rest[j+1 : k]), Body: parse(rl.n, rest[i+2:])}
+		case "keeper_iface":
+			cur, curLemma = nil, nil
+			cs.KeeperIfaces[qualifyType(pkg, strings.TrimSpace(rest))] = true
 		case "pure":
 			cur, curLemma = nil, nil
 			cs.Pure[strings.TrimSpace(rest)] = true
@@ -295,6 +300,8 @@ func (cs *ContractSet) ParseContractText(file, pkg, text string, trusted bool) {
 				}
 			case "ensures":
 				cur.Ensures = append(cur.Ensures, Clause{E: parse(rl.n, rest), Src: rest})
+			case "owns":
+				cur.Owns = append(cur.Owns, splitNames(rest)...)
 			case "pow10_max":
 				cur.Pow10Max, _ = strconv.Atoi(strings.TrimSpace(rest))
 			case "uses":
@@ -441,4 +448,11 @@ func splitConj(e CExpr) []CExpr {
 		return append(splitConj(b.X), splitConj(b.Y)...)
 	}
 	return []CExpr{e}
+}
+
+func qualifyType(pkg, name string) string {
+	if strings.Contains(name, "/") || pkg == "" {
+		return name
+	}
+	return pkg + "." + name
 }
